@@ -44,7 +44,7 @@ def gen_sample(dendropy, rng, ctx):
     rooted = rng.choice([True, False, None])
     k = rng.randint(1, ctx.pick(12, 30))
     none_rate = rng.choice([0.0, 0.0, 0.2])
-    unary = rng.choice([0.0, 0.0, 0.08])
+    unary = rng.choice([0.0, 0.0, 0.0, 0.05])
     base = c04.gen_on(dendropy, rng, tns, taxa, rooted, none_rate)
     trees = []
     for _ in range(k):
@@ -544,7 +544,7 @@ def run(ctx):
     rng = ctx.rng
     ctx.set_budget(45, 600)
     pending, pending_c = [], []
-    for _ in range(ctx.pick(450, 20000)):
+    for _ in range(ctx.pick(1500, 30000)):
         if ctx.out_of_time():
             break
         op = "summ" if rng.random() < 0.75 else "collapse"
